@@ -46,6 +46,9 @@ def instances(tier):
         for L in ([0, 2, 4] if tier == "quick" else [0, 1, 2, 4, 6]):
             out.append({"kind": "free_stream", "gen": g, "L": L, "then": "eof"})
             out.append({"kind": "free_stream", "gen": g, "L": L, "then": "silence"})
+        if g == 5:
+            for what in ("zone", "ac", "timer"):
+                out.append({"kind": "subheader", "gen": 5, "what": what})
         out.append({"kind": "stride", "gen": 5, "delta": 3 if g == 4 else 6, "what": "zone"})
         out.append({"kind": "stride", "gen": 5, "delta": 2 if g == 4 else 5, "what": "ac"})
         out.append({"kind": "stride", "gen": 5, "delta": 1 if g == 4 else 4, "what": "timer"})
@@ -88,6 +91,71 @@ def _deliver_and_probe(ctx, g, frame_bytes):
         rig.spawn(rig.sock.open_socket())
         rig.loop.vt_run(8.25)
         return list(rig.received), len(rig.net.conns), rig.task_failures()
+
+
+def _subheader(ctx, p):
+    """AT5 status sub-headers at the edges: (record length, record count) in {0, 1, known-1, known, known+2} x {0, 1, 2} with
+    exactly count*length bytes of records. Both zero is the request; a record length that holds the known layout is a
+    report of `count` records read from their known prefix (an empty report when count is 0); anything else is malformed
+    and is not delivered as a request or as records it does not contain."""
+    from ref import at5 as r5
+    g = Gen(5)
+    what = p["what"]
+    if what == "zone":
+        sub, known = 0x21, 8
+        recs = [r5.build_zone_status(3, 1, 1, 100, 150, 1, 743, 0, 0), r5.build_zone_status(4, 0, 0, 50, 0xFF, 0, 0x7FF, 0, 0)]
+    elif what == "ac":
+        sub, known = 0x23, 8
+        recs = [r5.build_ac_status(1, 1, 4, 2, 120, 0, 0, 0, 1, 730, 0, pad=0), r5.build_ac_status(2, 0, 1, 3, 100, 0, 0, 1, 0, 740, 7, pad=0)]
+    else:
+        sub, known = 0x33, 9
+        recs = [r5.build_timer_status(1, 0, 7, 31, 1, 0, 0), r5.build_timer_status(2, 1, 0, 0, 0, 22, 58)]
+    rl = (0, 1, known - 1, known, known + 2)[ctx.choice("rl", 5)]
+    rc = ctx.choice("rc", 3)
+    pid = ctx.byte("pid")
+    body = []
+    for i in range(rc):
+        r = (list(recs[i]) + [0xEE, 0xEF])[:rl]
+        body += r
+    fr = _frame(ctx, 5, 0xB0, 0x80, pid, 0xC0, framing.c0(sub, [], rl, rc, body))
+    probe = framing.frame(5, 0xB0, 0x80, 9, 0x78, [1, 2, 3])
+    with Rig(ctx, g) as rig:
+        def on_accept(conn):
+            if conn.index == 0:
+                conn.send(SymBytes(fr) if ctx.symbolic else bytes(fr))
+                rig.loop.call_later(1.0, lambda: conn.send(bytes(probe)) if not conn.client_closed else None)
+            elif conn.index == 1:
+                conn.send(bytes(probe))
+        rig.net.on_accept = on_accept
+        rig.spawn(rig.sock.open_socket())
+        rig.loop.vt_run(8.25)
+        got, conns, fails = list(rig.received), len(rig.net.conns), rig.task_failures()
+    first = [m for _, h, m in got if getattr(m, "unsupported_id", None) != 0x78]
+    probes = [m for _, h, m in got if getattr(m, "unsupported_id", None) == 0x78]
+    detail = {"what": what, "record_length": rl, "record_count": rc, "delivered": [type(getattr(m, "sub_message", m)).__name__ for m in first], "conns": conns}
+    ctx.observe("delivered", detail["delivered"])
+    ctx.check(len(probes) == 1 and not fails and conns <= 2, "free.recovers", detail=detail)
+    is_req = bool(first) and type(first[0].sub_message).__name__.endswith("Request")
+    n_recs = None
+    if first and not is_req:
+        sm = first[0].sub_message
+        xs = getattr(sm, "zones", None) or getattr(sm, "ac_status", None) or getattr(sm, "ac_timer_status", None) or []
+        n_recs = len(xs)
+    if rl == 0 and rc == 0:
+        ctx.check(len(first) == 1 and is_req and conns == 1, "stride.prefix_decoded", detail=dict(detail, why="the request form was not delivered as a request"))
+    elif rl >= known:
+        ok = len(first) == 1 and not is_req and n_recs == rc and conns == 1
+        if ok and rc:
+            xs = getattr(sm, "zones", None) or getattr(sm, "ac_status", None) or getattr(sm, "ac_timer_status", None)
+            ids = [getattr(x, "zone_number", getattr(x, "ac_number", None)) for x in xs]
+            ok = ids == [3, 4][:rc] if what == "zone" else ids == [1, 2][:rc]
+        ctx.check(ok, "stride.prefix_decoded", detail=dict(detail, why="a report with records of at least the known length was not decoded from the known prefix"))
+    else:
+        # malformed: a record length that cannot hold a record (or no length for records announced)
+        ctx.check(not is_req, "stride.prefix_decoded", detail=dict(detail, why="a malformed report was delivered as a request"))
+        ctx.check(not first or n_recs == 0, "stride.prefix_decoded", detail=dict(detail, why="records delivered that the frame does not contain"))
+    for lab in ("unknown.delivered_unchanged", "unknown.connection_undisturbed", "free.header_as_reference", "free.task_survives"):
+        ctx.reach(lab)
 
 
 def _unknown_type(ctx, p):
